@@ -343,6 +343,8 @@ pub fn sequential(seed: u64, tag: &str) -> (Option<Violation>, u64, BTreeMap<Str
 		s.probe("prefilled_through_first_resize");
 	}
 	let batches = s.rng.range(10, 120);
+	let hold_snapshot = s.rng.chance(1, 3);
+	let mut held = None;
 	let mut violation = None;
 	let mut last_size = map_size(&dir);
 	for bi in 0..batches {
@@ -369,6 +371,19 @@ pub fn sequential(seed: u64, tag: &str) -> (Option<Violation>, u64, BTreeMap<Str
 		let res = {
 			// SAFETY: the store outlives the batch; `s.store` is not touched while the batch is open
 			let store_ref: &Store = unsafe { &*store_ptr };
+			// optionally this thread keeps a snapshot iterator open across the whole batch (a nested
+			// transaction for the resize gate): it must keep showing the pre-batch contents
+			if hold_snapshot {
+				let p = *s.rng.pick(&PREFIXES);
+				let want: Vec<(Vec<u8>, usize)> = s.committed.iter().filter(|((pp, _), _)| *pp == p).map(|((_, k), v)| (k.clone(), v.len())).collect();
+				match store_ref.iter(Some(p), |k, v| Ok((k.to_vec(), v.len()))) {
+					Ok(it) => held = Some((p, want, it)),
+					Err(e) => {
+						violation = Some(viol("operation-failed", format!("snapshot iterator: {:?}", e)));
+						break;
+					}
+				}
+			}
 			match store_ref.batch() {
 				Ok(mut b) => {
 					let r = s.in_batch(&mut b, &mut stack, 1, &mut budget);
@@ -409,6 +424,17 @@ pub fn sequential(seed: u64, tag: &str) -> (Option<Violation>, u64, BTreeMap<Str
 			violation = Some(v);
 			break;
 		}
+		if let Some((p, want, it)) = held.take() {
+			let got: Vec<(Vec<u8>, usize)> = it.filter_map(|x| x.ok()).map(|(k, l)| (k, l - 4)).collect();
+			if got != want {
+				violation = Some(viol(
+					"snapshot-iterator-saw-later-batch",
+					format!("batch {}: an iterator over {:?} opened before the batch yields {} items, the contents at the time it was opened had {} (it must not observe a batch committed after it was opened)", bi, p as char, got.len(), want.len()),
+				));
+				break;
+			}
+			s.probe("snapshot_held_across_batch");
+		}
 		if let Err(v) = s.compare_all(&format!("after batch {}", bi)) {
 			violation = Some(v);
 			break;
@@ -424,6 +450,7 @@ pub fn sequential(seed: u64, tag: &str) -> (Option<Violation>, u64, BTreeMap<Str
 	let digest = fnv64(format!("{:?}{}", s.probes, total).as_bytes());
 	let ops = s.ops;
 	let probes = s.probes.clone();
+	drop(held);
 	s.store = None;
 	let _ = std::fs::remove_dir_all(&s.dir);
 	(violation, ops, probes, digest)
